@@ -40,6 +40,7 @@ type collector struct {
 	excluded    map[string]int64
 	notes       []string
 	replayed    int64
+	tolerate    bool
 	inconclusiv int64
 }
 
@@ -70,6 +71,10 @@ func Inconclusive() { c.mu.Lock(); c.inconclusiv++; c.mu.Unlock() }
 
 // Replayed counts a regression / known-finding input re-run outside rapid.
 func Replayed() { c.mu.Lock(); c.replayed++; c.mu.Unlock() }
+
+// TolerateExit tells the driver that a non-zero exit of this process without a recorded violation
+// is expected (the Go race detector fails the test binary for races listed as known findings).
+func TolerateExit() { c.mu.Lock(); c.tolerate = true; c.mu.Unlock() }
 
 // Note adds a free-text note to the evidence (deduplicated).
 func Note(s string) {
@@ -155,6 +160,7 @@ type out struct {
 	Notes        []string          `json:"notes"`
 	Replayed     int64             `json:"replayed_inputs"`
 	Inconclusive int64             `json:"inconclusive_retried"`
+	Tolerate     bool              `json:"tolerate_exit"`
 }
 
 // Flush writes the JSON stats file ($VERIF_STATS) and the hash side file ($VERIF_STATS.nt).
@@ -167,7 +173,7 @@ func Flush() {
 	defer c.mu.Unlock()
 	o := out{
 		Evaluations: c.evals, Labels: c.labels, NonTrivial: len(c.nontrivial), NTOverflow: c.ntOverflow,
-		Excluded: c.excluded, Notes: c.notes, KnownHits: c.knownHits, Replayed: c.replayed, Inconclusive: c.inconclusiv,
+		Excluded: c.excluded, Notes: c.notes, KnownHits: c.knownHits, Replayed: c.replayed, Inconclusive: c.inconclusiv, Tolerate: c.tolerate,
 	}
 	o.Samples = append(o.Samples, c.ntSamples...)
 	for _, s := range c.samples {
